@@ -6,8 +6,9 @@
 //     (projection ro, ns, im of the canonical dump; ns/im of library-inserted case nodes are masked:
 //     the property does not speak about them, DESIGN D39);
 //  2. a Go-side oracle for the read-only rule, written from the property text and not from the
-//     code: walking the real tree top-down, the list of (Config, Kind) on the pointer path decides
-//     — nearest explicit Config says false, or an output lies on the path — and must equal
+//     code: walking the real tree top-down, the pointer path decides — nearest explicit Config says
+//     false, or the path went through some RPC.Output pointer (position, not the Kind the library
+//     wrote into the node) — and must equal
 //     ReadOnly() wherever no `config true` lies below an output (inside rpc/action/notification the
 //     property excludes config statements; such sets are generated at a low rate and compared only
 //     outside that exclusion);
@@ -44,12 +45,27 @@ func impliedCase(e *yang.Entry) bool {
 	return ok
 }
 
-// unwrittenIO: an rpc input/output that Find created (its Node is the rpc, not an input/output statement).
-func unwrittenIO(e *yang.Entry) bool {
-	if e.Kind != yang.InputEntry && e.Kind != yang.OutputEntry {
+// How the walk reached a node: the oracles go by position in the tree (which pointer led here),
+// never by the Kind the library wrote into the node.
+const (
+	viaRoot = iota
+	viaDir
+	viaInput
+	viaOutput
+)
+
+type step struct {
+	e   *yang.Entry
+	via int
+}
+
+// unwrittenIO: an rpc/action input or output that Find created (reached through RPC.Input/Output,
+// but its Node is not an input/output statement).
+func unwrittenIO(s step) bool {
+	if s.via != viaInput && s.via != viaOutput {
 		return false
 	}
-	switch e.Node.(type) {
+	switch s.e.Node.(type) {
 	case *yang.Input, *yang.Output:
 		return false
 	}
@@ -87,29 +103,31 @@ func hook(c rescorr.Case, ms *yang.Modules, errs []error, out *rescorr.GoOut) {
 		nsOwner[m.Namespace.Name] = m.Name
 	}
 	visited := map[string]bool{}
-	var walk func(tree string, e *yang.Entry, chain []*yang.Entry)
-	walk = func(tree string, e *yang.Entry, chain []*yang.Entry) {
-		chain = append(chain, e)
+	// walk goes top-down through Dir, RPC.Input and RPC.Output; chain is the pointer path from the
+	// root, path its rendering (the node's address in the tree, whatever Parent pointers say).
+	var walk func(tree, path string, chain []step)
+	walk = func(tree, path string, chain []step) {
+		e := chain[len(chain)-1].e
 		// --- read-only, declaratively over the path
 		nearestFalse, inOutput, excluded, inOps, cfgInOps := false, false, false, false, false
 		for i := len(chain) - 1; i >= 0; i-- {
-			if chain[i].Config != yang.TSUnset {
-				nearestFalse = chain[i].Config == yang.TSFalse
+			if chain[i].e.Config != yang.TSUnset {
+				nearestFalse = chain[i].e.Config == yang.TSFalse
 				break
 			}
 		}
-		sawOutput := false
-		for _, x := range chain {
-			if sawOutput && x.Config == yang.TSTrue {
+		for _, s := range chain {
+			x := s.e
+			if inOutput && x.Config == yang.TSTrue {
 				excluded = true
 			}
 			if inOps && x.Config != yang.TSUnset {
 				cfgInOps = true
 			}
-			if x.Kind == yang.OutputEntry {
-				inOutput, sawOutput = true, true
+			if s.via == viaOutput {
+				inOutput = true
 			}
-			if x.RPC != nil || x.Kind == yang.NotificationEntry || x.Kind == yang.InputEntry || x.Kind == yang.OutputEntry {
+			if _, isNotif := x.Node.(*yang.Notification); isNotif || x.RPC != nil || s.via == viaInput || s.via == viaOutput {
 				inOps = true
 			}
 		}
@@ -124,17 +142,17 @@ func hook(c rescorr.Case, ms *yang.Modules, errs []error, out *rescorr.GoOut) {
 			}
 			if got := e.ReadOnly(); got != want {
 				add("read-only rule: %s %s: ReadOnly()=%v, the path says %v (nearest explicit config false=%v, in output=%v)",
-					tree, e.Path(), got, want, nearestFalse, inOutput)
+					tree, path, got, want, nearestFalse, inOutput)
 			}
 		}
 		if want {
 			cnt["ro_true"]++
 		}
 		// --- namespace attribution
-		lib := impliedCase(e) || unwrittenIO(e)
+		lib := impliedCase(e) || unwrittenIO(chain[len(chain)-1])
 		ns := e.Namespace().Name
 		im, imErr := e.InstantiatingModule()
-		key := tree + " " + e.Path()
+		key := tree + " " + path
 		visited[key] = true
 		switch {
 		case expect != nil:
@@ -169,25 +187,32 @@ func hook(c rescorr.Case, ms *yang.Modules, errs []error, out *rescorr.GoOut) {
 				add("instantiating module: %s: %q does not declare namespace %q", key, im, ns)
 			}
 		}
+		if len(chain) > 64 {
+			add("tree shape: %s is deeper than 64 levels (a cycle of child pointers?)", key)
+			return
+		}
+		next := func(c *yang.Entry, name string, via int) {
+			walk(tree, path+"/"+name, append(chain[:len(chain):len(chain)], step{c, via}))
+		}
 		ks := make([]string, 0, len(e.Dir))
 		for k := range e.Dir {
 			ks = append(ks, k)
 		}
 		sort.Strings(ks)
 		for _, k := range ks {
-			walk(tree, e.Dir[k], chain)
+			next(e.Dir[k], k, viaDir)
 		}
 		if e.RPC != nil {
 			if e.RPC.Input != nil {
-				walk(tree, e.RPC.Input, chain)
+				next(e.RPC.Input, "input", viaInput)
 			}
 			if e.RPC.Output != nil {
-				walk(tree, e.RPC.Output, chain)
+				next(e.RPC.Output, "output", viaOutput)
 			}
 		}
 	}
 	for _, m := range lib.DistinctModules(ms) {
-		walk(m.FullName(), yang.ToEntry(m), nil)
+		walk(m.FullName(), "/"+m.Name, []step{{yang.ToEntry(m), viaRoot}})
 	}
 	if expect != nil {
 		var missing []string
